@@ -133,6 +133,22 @@ func buildTwin(in *drv.Inst, t Twin, docs []m.Doc) error {
 	if err := db.DeleteById(t.Name, ID(999)); err != nil {
 		return err
 	}
+	// one document is deleted by id and inserted again under the same id with its final content
+	if len(docs) > 4 {
+		d := docs[4]
+		old := m.Clone(d).(m.Doc)
+		old["x"], old["y"], old["xy"], old["n"] = int64(-77), "gone", "gone", map[string]interface{}{"a": int64(-77)}
+		id := d["_id"].(string)
+		if err := db.ReplaceById(t.Name, id, drv.Doc(old)); err != nil {
+			return fmt.Errorf("ReplaceById before delete: %v", err)
+		}
+		if err := db.DeleteById(t.Name, id); err != nil {
+			return err
+		}
+		if err := db.Insert(t.Name, drv.Doc(d)); err != nil {
+			return fmt.Errorf("re-insert: %v", err)
+		}
+	}
 	if t.Order == 3 {
 		if err := mk(); err != nil {
 			return err
